@@ -129,16 +129,21 @@ def ref_case(chk, jobs, meta, mapping, nso, utd, ne, spin, hist=False):
                       dict(info, kind="ref", mapping=mapping, nso=nso, utd=utd))
 
 
-def vec_case(chk, jobs, meta, mapping, nso, utd, vec, hist=False):
+def vec_case(chk, jobs, meta, mapping, nso, utd, vec, hist=False, first=None):
+    """first = (mapping1, utd1): the SAME caller array is first encoded with that configuration, then with (mapping, utd);
+    the second result is recorded and must encode the occupation the caller wrote into the array."""
     from tangelo.toolboxes.qubit_mappings.statevector_mapping import get_mapped_vector, vector_to_circuit
     import numpy as np
-    info = {"occvec": list(vec), "hist": hist}
+    info = {"occvec": list(vec), "hist": hist, "first": list(first) if first else None}
     try:
         with warnings.catch_warnings():
             warnings.simplefilter("ignore")
             if hist:        # an earlier caller overwrote the array it was handed
                 edit_in_place(get_mapped_vector(np.array(vec, dtype=int), mapping, up_then_down=utd))
-            mv = get_mapped_vector(np.array(vec, dtype=int), mapping, up_then_down=utd)
+            user_vec = np.array(vec, dtype=int)
+            if first:
+                get_mapped_vector(user_vec, first[0], up_then_down=first[1])
+            mv = get_mapped_vector(user_vec, mapping, up_then_down=utd)
             circ = vector_to_circuit(mv)
         bits, bad, width = read_circuit(circ)
         mvl = [float(v) for v in mv]
@@ -155,6 +160,41 @@ def vec_case(chk, jobs, meta, mapping, nso, utd, vec, hist=False):
     except Exception as e:
         chk.violation("vec:%s:utd=%s:exception" % (mapping, utd), "%s: %s" % (type(e).__name__, e),
                       dict(info, kind="vec", mapping=mapping, nso=nso, utd=utd))
+
+
+def frame_targets():
+    from tangelo.toolboxes.qubit_mappings import statevector_mapping as sm
+    t = [("get_mapped_vector:%s:utd=%s" % (m, u), (lambda v, m=m, u=u: sm.get_mapped_vector(v, m, up_then_down=u)))
+         for m in MAPPINGS for u in (False, True)]
+    t += [("vector_to_circuit", sm.vector_to_circuit), ("do_bk_transform", sm.do_bk_transform),
+          ("do_jkmn_transform", sm.do_jkmn_transform), ("do_scbk_transform", lambda v: sm.do_scbk_transform(v, len(v)))]
+    return t
+
+
+def frame_case(chk, jobs, meta, fn_name, fn, vec, container):
+    """frame condition: the caller's vector argument (numpy array or list) is bit-identical after the call."""
+    import numpy as np
+    arg = np.array(vec, dtype=int) if container == "array" else list(vec)
+    before = [int(x) for x in arg]
+    try:
+        with warnings.catch_warnings():
+            warnings.simplefilter("ignore")
+            fn(arg)
+    except Exception:
+        return          # refusals / failures are judged by the other parts (lists are not documented inputs)
+    try:
+        after = [int(x) for x in arg]
+    except Exception:
+        after = [-1]
+    jid = len(jobs) + 1
+    jobs.append({"id": jid, "kind": "frame", "nso": len(vec), "n": 0, "x": [], "bad": 0, "Q": [], "ne": 0, "spin": 0, "dflt": True,
+                 "occvec": [], "before": before, "after": after})
+    meta[jid] = {"kind": "frame", "mapping": fn_name, "utd": container, "nso": len(vec), "occvec": list(vec), "fn": fn_name,
+                 "container": container}
+
+
+def configs():
+    return [(m, u) for m in MAPPINGS for u in (False, True)]
 
 
 def gen_jobs(chk, jobs, meta, rng=None):
@@ -187,6 +227,21 @@ def gen_jobs(chk, jobs, meta, rng=None):
                     vecs = rng.sample(vecs, 16 if quick else 48)
                 for vec in vecs:
                     vec_case(chk, jobs, meta, mapping, nso, utd, vec, hist=True)
+    # ---- the caller's arguments: frame condition for every function that takes a vector, and 'same user array, two
+    #      encodings in a row' for every ordered pair of (mapping, ordering) configurations
+    targets = frame_targets()
+    for nso in ([2, 4, 6] if quick else [2, 4, 6, 8]):
+        vecs = list(itertools.product((0, 1), repeat=nso))
+        fvecs = vecs if len(vecs) <= 16 else rng.sample(vecs, 8 if quick else 24)
+        for vec in fvecs:
+            for container in ("array", "list"):
+                for fn_name, fn in targets:
+                    frame_case(chk, jobs, meta, fn_name, fn, vec, container)
+        pvecs = vecs if len(vecs) <= 16 else rng.sample(vecs, 6 if quick else 16)
+        for c1 in configs():
+            for c2 in configs():
+                for vec in pvecs:
+                    vec_case(chk, jobs, meta, c2[0], nso, c2[1], vec, first=c1)
     return n_ref, n_plain
 
 
@@ -198,6 +253,14 @@ def negative_controls(jobs, verdicts):
     seen = set()
     for j in jobs:
         key = (j["kind"], j["n"] > 0, len(j["Q"]) > 0)
+        if j["kind"] == "frame":
+            if "frame" not in seen and verdicts[j["id"]] == "ok" and len(j["before"]) >= 2:
+                seen.add("frame")
+                c = copy.deepcopy(j)
+                c["id"] = 10 ** 6 + len(ctl)
+                c["after"] = c["after"][1:] + c["after"][:1] if len(set(c["after"])) > 1 else [1 - c["after"][0]] + c["after"][1:]
+                ctl.append((c, "argument-modified"))
+            continue
         if key in seen or j["n"] == 0 or verdicts[j["id"]] != "ok":
             continue
         seen.add(key)
@@ -258,7 +321,8 @@ def run(chk):
     for j in jobs:
         m = meta[j["id"]]
         v = verdicts[j["id"]]
-        s = stats.setdefault("%s%s:%s" % (m["kind"], "-after-edit" if m.get("hist") else "", m["mapping"]), [0, 0])
+        tag = "-after-edit" if m.get("hist") else ("-second-encoding" if m.get("first") else "")
+        s = stats.setdefault("%s%s:%s" % (m["kind"], tag, m["mapping"] if m["kind"] != "frame" else m["fn"].split(":")[0]), [0, 0])
         s[0] += 1
         chk.add_traces(1, m["kind"])
         if v == "ok":
@@ -266,21 +330,28 @@ def run(chk):
         if v == "malformed":
             raise tlc.TLCError("malformed record %s" % m)
         s[1] += 1
-        key = "%s%s:%s:utd=%s:%s" % (m["kind"], "-after-edit" if m.get("hist") else "", m["mapping"], m["utd"], v)
+        key = "%s%s:%s:utd=%s:%s" % (m["kind"], tag, m["mapping"], m["utd"], v)
+        if m["kind"] == "frame":
+            key = "frame:%s:%s:%s" % (m["fn"], m["container"], v)
         per_key[key] = per_key.get(key, 0) + 1
         if (per_key[key] > 2 or len(chk.violations) >= 48) and chk.match_known(key) is None:
             continue        # the harness writes at most 50 replay files: every printed VIOLATION must have one
-        chk.violation(key,
-                      "state x=%s (n=%d) vs the code's encodings of the %d number operators: %s  %s" % (j["x"], j["n"], j["nso"], v, m),
-                      m)
+        detail = ("the caller's vector %s was changed to %s by %s" % (j["before"], j["after"], m["fn"])) if m["kind"] == "frame" else \
+            "state x=%s (n=%d) vs the code's encodings of the %d number operators: %s  %s" % (j["x"], j["n"], j["nso"], v, m)
+        chk.violation(key, detail, m)
     wrong = [(c["id"], verdicts[c["id"]], e) for c, e in ctl if verdicts[c["id"]] != e]
     chk.part("negative_controls", corrupted=len(ctl), rejected_as_expected=len(ctl) - len(wrong))
     if wrong:
         raise tlc.TLCError("binding failure: corrupted records not rejected as expected: %s" % wrong[:5])
-    chk.part("V", jobs=len(jobs), reference_circuits=n_ref, mapped_vectors=n_plain - n_ref, after_in_place_edit=len(jobs) - n_plain,
+    chk.part("V", jobs=len(jobs), reference_circuits=n_ref, mapped_vectors=n_plain - n_ref,
+             history_records=len(jobs) - n_plain, frame_records=sum(1 for j in jobs if j["kind"] == "frame"),
+             second_encoding_records=sum(1 for j in jobs if meta[j["id"]].get("first")),
              by_kind={k: {"n": v[0], "bad": v[1]} for k, v in sorted(stats.items())})
     for jid in (1, n_ref, n_plain, len(jobs)):
         j = jobs[jid - 1]
+        if j["kind"] == "frame":
+            chk.sample({"record": {k: j[k] for k in ("kind", "before", "after")}, "meta": meta[jid], "verdict": verdicts[jid]})
+            continue
         chk.sample({"record": {k: j[k] for k in ("kind", "nso", "n", "x", "ne", "spin", "dflt", "occvec")},
                     "Q[0]": j["Q"][0] if j["Q"] else None, "meta": meta[jid], "verdict": verdicts[jid]})
     chk.cov["exhaustive"] = True
@@ -298,16 +369,23 @@ def replay(chk, rec):
     c2 = check.Check("C05", ["quick"])
     c2.known = []
     jobs, meta = [], {}
-    if m["kind"] == "ref":
+    if m["kind"] == "frame":
+        fn = dict(frame_targets())[m["fn"]]
+        frame_case(c2, jobs, meta, m["fn"], fn, tuple(m["occvec"]), m["container"])
+    elif m["kind"] == "ref":
         ref_case(c2, jobs, meta, m["mapping"], m["nso"], m["utd"], m["ne"], m["spin"], hist=m.get("hist", False))
     else:
-        vec_case(c2, jobs, meta, m["mapping"], m["nso"], m["utd"], tuple(m["occvec"]), hist=m.get("hist", False))
+        vec_case(c2, jobs, meta, m["mapping"], m["nso"], m["utd"], tuple(m["occvec"]), hist=m.get("hist", False),
+                 first=tuple(m["first"]) if m.get("first") else None)
     if c2.violations:
         print("code-level failure reproduced:", c2.violations[0][:2])
         return False
     verdicts, _ = tlc.judge("C05Trace", jobs, "c05/replay", {"M": M})
     print("case:", m)
     for j in jobs:
+        if j["kind"] == "frame":
+            print("argument before:", j["before"], " after:", j["after"], " TLC verdict:", verdicts[j["id"]])
+            continue
         print("state bits read off the code's circuit (%s):" % meta[j["id"]].get("source", "get_mapped_vector"), j["x"],
               " TLC verdict:", verdicts[j["id"]])
     return all(verdicts[j["id"]] == "ok" for j in jobs)
